@@ -77,3 +77,20 @@ pub struct ParentIsShared;
 /// { n.size() }
 /// ```
 pub struct NodeMapIsPrivate;
+
+/// C18-S1: the learning state of a slot machine cannot be written from outside its module (the sign invariant
+/// shape > 0, rate > 0, variance >= 0 is established by `new` and preserved by `update`, the only writers).
+/// ```compile_fail,E0616
+/// fn f<A, S>(m: &mut rosomaxa::algorithms::rl::SlotMachine<A, S>) { m.alpha = -1.; }
+/// ```
+/// ```compile_fail,E0616
+/// fn f<A, S>(m: &mut rosomaxa::algorithms::rl::SlotMachine<A, S>) { m.beta = 0.; }
+/// ```
+/// twin:
+/// ```
+/// fn f<A, S>(m: &rosomaxa::algorithms::rl::SlotMachine<A, S>) -> f64
+/// where A: rosomaxa::algorithms::rl::SlotAction + Clone, S: rosomaxa::utils::DistributionSampler + Clone {
+///     m.get_params().0
+/// }
+/// ```
+pub struct SlotMachineStateIsPrivate;
